@@ -19,19 +19,23 @@ MANIFEST = dict(
     text="Lean 4 theorems over an executable model of connection lifetime (h1_check_timeout / "
          "h2_check_timeout as they are; a connection automaton for connections.c / h1.c / response.c between "
          "two rests of the main loop; a server automaton for lim_conns / cur_fds watermarks / sockets_disabled / "
-         "accept loop / graceful state): a connection without client progress is shut down by the first sweep "
-         "past its deadline and released after the linger timeout for every schedule of other events, "
-         "connections <= max-connections for every client script, overload recovery at the next loop iteration, "
-         "431 / 413 instead of buffering, graceful stop closes the listen sockets, leaves in-flight work alone "
-         "and exits at the deadline; model tied to the code by running the real server_main_loop() in virtual "
-         "time (in-process, ASan/UBSan) and the real binary in real time on the same scenario language",
+         "accept loop / graceful state driven by scripted clients): every reachable state is consistent with all "
+         "connections at rest; a connection whose client makes no progress is shut down by the first sweep past "
+         "its deadline and released after the linger timeout, for every schedule of sweeps, wake-ups, signals "
+         "and actions of all other clients (proved for the single connection and lifted to the whole server); "
+         "connections <= max-connections for every client script; overload recovery at the next loop iteration; "
+         "431 / 413 instead of buffering; graceful stop closes the listen sockets, leaves in-flight work alone "
+         "and exits at the deadline; model tied to the code by running the real, unmodified server_main_loop() "
+         "in virtual time (in-process, ASan/UBSan, three event handlers) and the real binary in real time on "
+         "the same scenario language, plus exhaustive direct calls of the two timeout functions",
     note="trusted: Lean kernel, hand-written model validated by exhaustive calls of h1_check_timeout / "
          "h2_check_timeout and by trace comparison of the unmodified main loop against scripted clients; the "
          "in-process scenarios use AF_UNIX sockets and a scripted dynamic handler (no TLS, no backends: a hung "
-         "backend is outside the property), HTTP/2 glue only end-to-end; kernel accept-queue behaviour and real "
-         "scheduling latency outside the model (real-time bounds checked with a tolerance of one tick + slack)",
-    tech="Lean 4 proof (invariants over event schedules) + extracted constants + in-process virtual-time and "
-         "real-time end-to-end correspondence",
+         "backend is outside the property, clients do not pipeline), HTTP/2 glue only end-to-end; kernel "
+         "accept-queue behaviour and real scheduling latency outside the model (real-time bounds checked with "
+         "a tolerance of one tick + 2 s slack)",
+    tech="Lean 4 proof (invariants over event schedules, refinement of one connection inside the server) + "
+         "extracted constants + in-process virtual-time and real-time end-to-end correspondence",
     ref="6/C13")
 
 ST = dict(connect=0, req_start=1, read=2, req_end=3, read_post=4, handle_req=5, resp_start=6, write=7,
@@ -465,6 +469,32 @@ def server_conf(cfg, h2=False):
     return s
 
 
+def start_server(bd, conf):
+    """a started server, or (None, why).  The port is chosen by bind(0)/close and may be taken by another
+    test server before lighttpd binds it: retry on a fresh port"""
+    err = None
+    for attempt in range(6):
+        srv = e2e.Server(bd, conf, modules=("mod_cgi",))
+        setup_docroot(srv)
+        try:
+            srv.start()
+            time.sleep(0.15)
+            if srv.alive():
+                return srv, None
+            # (start() saw the port answering, but that was somebody else's server: ours lost the bind)
+            raise RuntimeError("lighttpd exited at start: " + srv.logs()[-300:])
+        except Exception as e:           # noqa
+            err = "server did not start: %s" % e
+            try:
+                srv.stop()
+            except Exception:            # noqa
+                pass
+            if "Address already in use" not in err and "did not start" not in err:
+                break
+            time.sleep(0.2 * (attempt + 1))
+    return None, err
+
+
 def build_request(m, k, z, H, B, csz):
     path = ("/%s" % z) if m == "g" else "/p.cgi"
     head = ("GET " if m == "g" else "POST ") + path + " HTTP/1.1\r\nHost: h\r\n"
@@ -643,15 +673,12 @@ def run_rt(bd, line, h2=False):
     toks = line.split(" ")
     cfg = parse_cfg(toks[1])
     ops = toks[2:]
-    srv = e2e.Server(bd, server_conf(cfg), modules=("mod_cgi",))
-    setup_docroot(srv)
     res = dict(line=line, obs=[], error=None, exit_tick=None, fin_tick={}, statuses={}, flags={}, nbytes={},
                complete={}, ticks=[], optime=[])
     cl = {}
-    try:
-        srv.start()
-    except Exception as e:           # noqa
-        res["error"] = "server did not start: %s" % e
+    srv, err = start_server(bd, server_conf(cfg))
+    if srv is None:
+        res["error"] = err
         return res
     diag = SockDiag()
     try:
@@ -978,13 +1005,10 @@ def h2_predict(name, cfg):
 
 
 def run_h2(bd, name, cfg):
-    srv = e2e.Server(bd, server_conf(cfg, h2=True), modules=("mod_cgi",))
-    setup_docroot(srv)
     res = dict(name=name, error=None, elapsed=None, goaway=False, frames=[])
-    try:
-        srv.start()
-    except Exception as e:       # noqa
-        res["error"] = "server did not start: %s" % e
+    srv, err = start_server(bd, server_conf(cfg, h2=True))
+    if srv is None:
+        res["error"] = err
         return res
     try:
         c = e2e.H2Conn(srv.port)
@@ -1138,6 +1162,17 @@ def replay_line(ctx, rep):
             verd, dis = check_rt(rep.get("scenario", "replay"), line, exp[0][2] if exp else [], res, m[0] if m else "")
             print("oracle:", verd, "correspondence:", dis)
             if verd or dis:
+                print("VIOLATION property=%s replay=%s" % (ctx.pid, "(replayed)"))
+                return 1
+        elif line.startswith("h2-"):
+            import ast
+            name, rest = line.split(" ", 1)
+            cfg = ast.literal_eval(rest)
+            res = run_h2(bd, name, cfg)
+            tmo = {"h2-idle": cfg["ka"], "h2-idle-after-request": cfg["ka"], "h2-body-stall": cfg["ri"],
+                   "h2-window-stall": cfg["wi"]}[name]
+            print("impl :", res, "bound: %d + 2 ticks (+2 s slack)" % tmo)
+            if res.get("error") or res.get("sanitizer") or not res.get("closed") or res["elapsed"] > tmo + 4:
                 print("VIOLATION property=%s replay=%s" % (ctx.pid, "(replayed)"))
                 return 1
         return 0
